@@ -49,7 +49,7 @@ CHECKS = {
             "C15_fan_exactly_once (for every schedule each connected output has been given exactly the block of the dispatch log since its spawn, in order — HidiProofs/FanLemmas.lean), C15_fan_quiescent, C15_ids_distinct, C15_relay_order / C15_relay_complete (per emitter: exactly once, in emission order), C15_source_facts (send selected against a per-output leaving signal), C15_despawn_blocks_unguarded (witness of the repaired deadlock), C15_despawn_completes_on_wedge, C15_despawn_completes (progress: from every reachable state of the guarded fan-out with a removal pending, at most 2*|outputs|+5 enabled steps of the dispatcher, the remover and consumers that have not been told to leave return the call; never a step of the removed consumer — HidiProofs/FanLive.lean).",
             "Partial by nature: goroutine scheduling belongs to the Go runtime; conformance of the real goroutines to the model is sampled (scripts + stress runs with watchdogs), the theorems cover every interleaving of the model only."),
     "C16": ("Lean 4 source facts + lock-discipline model; race-detector runs of the real goroutines (1-8 devices concurrently, LED loop against a fake OpenRGB server)",
-            "C16_table_disciplined (the access table regenerated from package device — every *Device field access of the three goroutines with the mutexes held — has a common mutex for every conflicting pair), C16_no_race (generic lockset theorem: no schedule enables two conflicting accesses), C16_writes_locked, C16_table_complete, C16_no_shared_package_state, C16_independent, C16_source_facts; the decision on the implementation: every ProcessEvents returns promptly, no goroutine is left, the race detector is silent, each device's output equals its output when run alone.",
+            "C16_table_disciplined (the access table regenerated from package device — every *Device field access of the three goroutines with the mutexes held — has a common mutex for every conflicting pair), C16_no_race (generic lockset theorem: no schedule enables two conflicting accesses), C16_writes_locked, C16_table_complete, C16_no_shared_package_state, C16_independent, C16_source_facts; life-cycle transition system of the three goroutines and the two mutexes (Hidi/Life.lean): C16_life_mutual_exclusion (every schedule, single lock order), C16_life_wait_means_finished, C16_life_terminates (from every reachable state with the input ended at most 973 enabled steps of the goroutines themselves finish all three), C16_life_no_deadlock, C16_life_source_facts (regenerated: every waiting loop watches ctx.Done(), range -> cancel -> clean-up -> wg.Wait, lock nesting table); the decision on the implementation: every ProcessEvents returns promptly, no goroutine is left, the race detector is silent, each device's output equals its output when run alone.",
             "Partial by nature: schedules are sampled under the race detector; a peer that never answers TCP is not modelled."),
     "C17": ("Lean 4 proof over the frame model (painting order, byte arithmetic, exact channel colours) + source facts + frames of the real LED loop captured by a fake OpenRGB server",
             "C17_refinement (every LED of every frame equals the declarative per-LED specification LedSpec.highlight: active > external colour of the current channel > colour of the lowest other MIDI-input channel > base colour; proved via last-write-wins over the write list), C17_pitch_class (base colour of a mapped key = class colour of note + semitone + 12*octave), C17_unavailable (out of MIDI range and bound to no action: unavailable colour), C17_external, C17_other_channel, C17_frame_total (any layout incl. none: one colour per LED, nothing outside the frame written), C17_layout (an action paints at most the LED of its own key), C17_active (LEDs of keys at a held pitch show the active colour whatever was painted before), C17_midi_in_note_off / note_on_zero / note_on / cleared, C17_panic_clears, C17_channel_colours, C17_source_facts, witnesses C17_unchecked_crashes / C17_unchecked_hits_led0; independent per-LED expectation from State(), the device's own MIDI output and the MIDI-input script evaluated on every captured frame.",
